@@ -87,7 +87,38 @@ pub fn run(ctx: &mut Ctx) {
         if t.count() > 1 {
             ctx.nontrivial(t.shape_hash());
         }
+        // hostile history: the decoder is first fed malformed variants of the encoding on this very
+        // thread (their verdict is C06's business); the valid round trip must be unaffected by them
+        for _ in 0..2 {
+            let mut bad = mb.clone();
+            match rng.below(3) {
+                0 => {
+                    let n = rng.range(1, bad.len());
+                    bad.truncate(n);
+                }
+                1 => {
+                    let i = rng.below(bad.len());
+                    bad[i] ^= 1 << rng.below(8);
+                }
+                _ => {
+                    let i = rng.range(2, bad.len());
+                    bad.insert(i, 0xff);
+                }
+            }
+            ctx.count("malformed_decodes_interleaved");
+            let _ = trap::guard(|| Envelope::try_from_cbor_data(bad).is_ok());
+        }
         roundtrip(ctx, &e, "plain", Some(&mb));
+        // legal but deeply nested envelopes (wrap + assertion chains) must round-trip as well
+        if case % 400 == 0 {
+            let depth = rng.range(40, 200);
+            let mut deep = Envelope::new("core");
+            for i in 0..depth {
+                deep = if i % 2 == 0 { deep.wrap_envelope() } else { deep.add_assertion("level", i as u64) };
+            }
+            ctx.count("deep_chain_envelopes");
+            roundtrip(ctx, &deep, "deep-chain", None);
+        }
         // obscured variants
         let key = fresh_key(&mut rng);
         let rounds = rng.range(1, 4);
